@@ -54,3 +54,44 @@ pub open spec fn is_tree_pack_of(files: Seq<IndexFile>, n: int, id: PackId) -> b
 }
 
 pub struct VHotHandle { pub _opaque: u64 }
+
+// ---- repair hotcold: correct_missing_files (both directions are repaired) ----
+#[derive(Clone, Copy, PartialEq, Eq, Structural)]
+pub enum FileType { Config, Index, Key, Snapshot, Pack }
+pub struct VHotBe { pub _opaque: u64 }
+pub struct VRepoHCR { pub be_hot: Option<VHotBe>, pub be_cold: VHotBe }
+pub struct ProgressH { pub _opaque: u64 }
+impl ProgressH {
+    #[verifier::external_body]
+    pub fn set_length(&self, n: u64) { unimplemented!() }
+    #[verifier::external_body]
+    pub fn finish(&self) { unimplemented!() }
+}
+impl VRepoHCR {
+    #[verifier::external_body]
+    pub fn vprogress(&self) -> ProgressH { unimplemented!() }
+}
+// what this run copied, and whether the cold files to read were warmed up first
+pub struct RepairHC { pub to_cold: Ghost<Option<Seq<Id>>>, pub to_hot: Ghost<Option<Seq<Id>>>, pub warmed: Ghost<Option<Seq<Id>>> }
+// get_missing_files (closures / iterator adapters: not under contract): (missing in hot, their size, missing in cold, their size)
+pub uninterp spec fn MISSING_HOT(repo: VRepoHCR, tpe: FileType) -> Seq<Id>;
+pub uninterp spec fn MISSING_COLD(repo: VRepoHCR, tpe: FileType) -> Seq<Id>;
+#[verifier::external_body]
+pub fn vget_missing_files(repo: &VRepoHCR, tpe: FileType) -> (r: RusticResult<(Vec<Id>, u64, Vec<Id>, u64)>)
+    ensures r matches Ok(x) ==> x.0@ == MISSING_HOT(*repo, tpe) && x.2@ == MISSING_COLD(*repo, tpe),
+{ unimplemented!() }
+// copy(files, type, from, to, p) (rayon): every listed file is read from `from` and written to `to`
+#[verifier::external_body]
+pub fn vcopy_to_cold(files: Vec<Id>, tpe: FileType, p: &ProgressH, w: &mut RepairHC) -> (r: RusticResult<()>)
+    ensures r is Ok ==> final(w).to_cold@ == Some(files@), final(w).to_hot@ == old(w).to_hot@, final(w).warmed@ == old(w).warmed@,
+{ unimplemented!() }
+// PRECONDITION: the cold files were warmed up before they are read
+#[verifier::external_body]
+pub fn vcopy_to_hot(files: Vec<Id>, tpe: FileType, p: &ProgressH, w: &mut RepairHC) -> (r: RusticResult<()>)
+    requires old(w).warmed@ == Some(files@),
+    ensures r is Ok ==> final(w).to_hot@ == Some(files@), final(w).to_cold@ == old(w).to_cold@, final(w).warmed@ == old(w).warmed@,
+{ unimplemented!() }
+#[verifier::external_body]
+pub fn vwarm_up_wait(repo: &VRepoHCR, tpe: FileType, files: &Vec<Id>, w: &mut RepairHC) -> (r: RusticResult<()>)
+    ensures r is Ok ==> final(w).warmed@ == Some(files@), final(w).to_cold@ == old(w).to_cold@, final(w).to_hot@ == old(w).to_hot@,
+{ unimplemented!() }
